@@ -106,12 +106,14 @@ func init() {
 	reg("asleaf", Leaf, 1, ix(0), nil, false, 1)
 	reg("fmtargleaf", Leaf, 2, ix(0, 1), nil, false, 1)   // FormatError prints an error VALUE as a format argument
 	reg("protofailleaf", Leaf, 1, ix(0), nil, false, 1) // announces a protobuf payload that cannot be marshalled
+	reg("silentsafeleaf", Leaf, 1, ix(0), nil, false, 0) // third-party SafeFormatter that prints nothing in short mode: weight 0, placed by C03 only
 	reg("hdleaf", Leaf, 3, ix(0, 1, 2), nil, false, 1)    // third-party leaf with its own hint and detail
 	reg("stacksafeleaf", Leaf, 2, ix(0), ix(1), false, 0) // weight 0: only placed explicitly (C12, C15); an unregistered type loses its stack in transfer
 	// library wrappers
 	reg("wrap", Wrap, 1, nil, ix(0), true, 4)
 	reg("wrapempty", Wrap, 0, nil, nil, true, 1)
 	reg("wrapf", Wrap, 2, ix(1), ix(0), true, 3)
+	reg("wrapfempty", Wrap, 0, nil, nil, true, 1)  // Wrapf whose prefix FORMATS to the empty string ("%s" with "")
 	reg("wrapf0", Wrap, 1, nil, ix(0), true, 1)    // a format (with escaped %) and NO arguments
 	reg("withmsgf0", Wrap, 1, nil, ix(0), true, 1) // id.
 	reg("withmsg", Wrap, 1, nil, ix(0), true, 2)
@@ -173,6 +175,7 @@ func init() {
 	reg("handledmsg", Barrier, 1, ix(0), nil, true, 2)
 	reg("handledmsgf", Barrier, 2, ix(1), ix(0), true, 1)
 	reg("handledmsgf0", Barrier, 1, nil, ix(0), true, 1) // a format (with escaped %) and NO arguments
+	reg("handledmsgempty", Barrier, 0, nil, nil, true, 0) // HandledWithMessage(e, ""): weight 0, only ever placed at the root (C07)
 	reg("opaque", Barrier, 0, nil, nil, true, 1)
 	reg("handleddomain", Barrier, 1, nil, ix(0), true, 1)
 	reg("handleddommsg", Barrier, 2, ix(1), ix(0), true, 1)
@@ -261,6 +264,12 @@ func BuildMap(n *Node) (error, Built) {
 func Build(n *Node) error { return build(n, nil) }
 
 func build(n *Node, m Built) error {
+	// a descriptor that contains the SAME node twice (Join(e, e)) yields the same object twice
+	if m != nil {
+		if e, ok := m[n]; ok {
+			return e
+		}
+	}
 	e := Build1(n, m)
 	if m != nil {
 		m[n] = e
@@ -341,6 +350,8 @@ func Build1(n *Node, m Built) error {
 		return &FmtArgLeaf{S[0], goErr.New(S[1])}
 	case "protofailleaf":
 		return &ProtoFailLeaf{S[0]}
+	case "silentsafeleaf":
+		return &SilentSafeLeaf{S[0]}
 	case "hdleaf":
 		return &HDLeaf{S[0], S[1], S[2]}
 	case "isleaf":
@@ -362,6 +373,8 @@ func Build1(n *Node, m Built) error {
 		return errors.Wrap(kids[0], "")
 	case "wrapf":
 		return errors.Wrapf(kids[0], esc(S[0])+" %s", S[1])
+	case "wrapfempty":
+		return errors.Wrapf(kids[0], "%s", "")
 	case "wrapf0":
 		return errors.Wrapf(kids[0], esc(S[0])+" 100%%")
 	case "withmsgf0":
@@ -493,6 +506,8 @@ func Build1(n *Node, m Built) error {
 		return barriers.HandledWithMessagef(hid[0], esc(S[0])+" %s", S[1])
 	case "handledmsgf0":
 		return barriers.HandledWithMessagef(hid[0], esc(S[0])+" 100%%")
+	case "handledmsgempty":
+		return errors.HandledWithMessage(hid[0], "")
 	case "opaque":
 		return errors.Opaque(hid[0])
 	case "handleddomain":
